@@ -55,6 +55,8 @@ var (
 	tyT1   = reflect.TypeOf(cT1{})
 	tyPT1  = reflect.TypeOf(&cT1{})
 	tyPT2  = reflect.TypeOf(&cT2{})
+	tyT2   = reflect.TypeOf(cT2{})     // by value: implements nothing (its methods have pointer receivers)
+	tySS   = reflect.TypeOf([]cS(nil)) // also the type of a variadic ...cS parameter
 	tyT3   = reflect.TypeOf(cT3{})
 	tyPT4  = reflect.TypeOf(&cT4{})
 	tyS    = reflect.TypeOf(cS(""))
@@ -65,7 +67,7 @@ var (
 	tyI2   = reflect.TypeOf((*cI2)(nil)).Elem()
 	tyI12  = reflect.TypeOf((*cI12)(nil)).Elem()
 	tyI3   = reflect.TypeOf((*cI3)(nil)).Elem()
-	c04Tys = []reflect.Type{tyT1, tyPT1, tyPT2, tyT3, tyPT4, tyS, tyN, tyCh, tyRCh, tyI1, tyI2, tyI12, tyI3}
+	c04Tys = []reflect.Type{tyT1, tyPT1, tyPT2, tyT3, tyPT4, tyS, tyN, tyCh, tyRCh, tyI1, tyI2, tyI12, tyI3, tyT2, tySS}
 )
 
 func tyName(t reflect.Type) string { return t.String() }
@@ -81,12 +83,13 @@ func tyByName(s string) reflect.Type {
 
 // injCase: registrations over nested scopes and one invocation (C04, part A).
 type injCase struct {
-	Scopes int      `json:"scopes"` // 1..3, scope 0 outermost, the last one is the nearest
-	Regs   []injReg `json:"registrations"`
-	Later  []injReg `json:"later_registrations,omitempty"` // applied after the first invocation; then the handler is invoked again
-	Params []string `json:"params"`                        // parameter types of the handler
-	Fast   string   `json:"fast,omitempty"`                // name of a hand-written FastInvoker wrapper with exactly these parameters
-	Apply  bool     `json:"apply,omitempty"`               // Apply to a struct with tagged fields instead of Invoke
+	Scopes   int      `json:"scopes"` // 1..3, scope 0 outermost, the last one is the nearest
+	Regs     []injReg `json:"registrations"`
+	Later    []injReg `json:"later_registrations,omitempty"` // applied after the first invocation; then the handler is invoked again
+	Params   []string `json:"params"`                        // parameter types of the handler
+	Fast     string   `json:"fast,omitempty"`                // name of a hand-written FastInvoker wrapper with exactly these parameters
+	Apply    bool     `json:"apply,omitempty"`               // Apply to a struct with tagged fields instead of Invoke
+	Variadic bool     `json:"variadic,omitempty"`            // the function is variadic: its last parameter is ...cS, i.e. of type []cS, and is resolved like any other parameter
 }
 
 type injReg struct {
@@ -127,6 +130,10 @@ func mkValue(impl reflect.Type, tag string, chans map[string]string) reflect.Val
 		return reflect.ValueOf(&cT1{tag})
 	case tyPT2:
 		return reflect.ValueOf(&cT2{tag})
+	case tyT2:
+		return reflect.ValueOf(cT2{tag})
+	case tySS:
+		return reflect.ValueOf([]cS{cS(tag), "second"})
 	case tyT3:
 		return reflect.ValueOf(cT3{tag})
 	case tyPT4:
@@ -169,6 +176,13 @@ func tagOfValue(v reflect.Value, chans map[string]string) string {
 		return x.Tag
 	case *cT2:
 		return x.Tag
+	case cT2:
+		return x.Tag
+	case []cS:
+		if len(x) == 0 {
+			return "?empty-slice"
+		}
+		return string(x[0])
 	case cT3:
 		return x.Tag
 	case *cT4:
@@ -252,6 +266,10 @@ func genInjCase(rng *rand.Rand) *injCase {
 		}
 		for k := np; k > 0; k-- {
 			c.Params = append(c.Params, tyName(pickParam(rng, c.Regs)))
+		}
+		if rng.Intn(8) == 0 {
+			c.Variadic = true
+			c.Params = append(c.Params, tyName(tySS))
 		}
 	}
 	if len(c.Regs) > 0 && rng.Intn(2) == 0 {
@@ -706,7 +724,7 @@ func judgeInj(w *core.W, c *injCase) {
 
 	// reflective
 	var o injObs
-	fn := reflect.MakeFunc(reflect.FuncOf(params, []reflect.Type{tInt, tString}, false), func(args []reflect.Value) []reflect.Value {
+	fn := reflect.MakeFunc(reflect.FuncOf(params, []reflect.Type{tInt, tString}, c.Variadic), func(args []reflect.Value) []reflect.Value {
 		o.ran++
 		for _, a := range args {
 			o.tags = append(o.tags, tagOfValue(a, chans))
@@ -764,7 +782,7 @@ func judgeInj(w *core.W, c *injCase) {
 			accept2[i], _, _ = resolve(tbl, params[i])
 		}
 		var o2 injObs
-		fn2 := reflect.MakeFunc(reflect.FuncOf(params, []reflect.Type{tInt, tString}, false), func(args []reflect.Value) []reflect.Value {
+		fn2 := reflect.MakeFunc(reflect.FuncOf(params, []reflect.Type{tInt, tString}, c.Variadic), func(args []reflect.Value) []reflect.Value {
 			o2.ran++
 			for _, a := range args {
 				o2.tags = append(o2.tags, tagOfValue(a, chans))
